@@ -96,6 +96,15 @@ pub fn generate(seed: u64, prop: &str, thorough: bool) -> EntropySc {
                 for k in 0..n {
                     keys.push(format!("{}{}", r.pick(NAME_POOL), k));
                 }
+                // the name the command-line front end binds: alone (the state every program starts
+                // in there) or among others
+                if r.chance(1, 3) {
+                    if n <= 1 || r.chance(1, 2) {
+                        keys = vec!["BIN".to_string()];
+                    } else {
+                        keys[0] = "BIN".to_string();
+                    }
+                }
                 Case::BoundName { keys, salt: if r.chance(1, 2) { r.next() | 1 } else { 0 } }
             }
             _ => Case::Bool,
@@ -122,7 +131,7 @@ pub fn generate(seed: u64, prop: &str, thorough: bool) -> EntropySc {
                 },
                 list,
                 bindings,
-                p_new: r.pick(&[0.0f32, 0.001, 0.5, 1.0]).to_bits(),
+                p_new: r.pick(&[0.0f32, 0.001, 0.5, 1.0, 1.0001, 5.0, -0.001, f32::NAN, f32::INFINITY]).to_bits(),
             },
             4..=6 => Case::CodeBounded { max_points: r.below(66) as usize, list, bindings },
             7..=8 => Case::CodeRand {
@@ -134,10 +143,24 @@ pub fn generate(seed: u64, prop: &str, thorough: bool) -> EntropySc {
         }
     };
     let faulted = r.chance(1, 2);
+    // one vector case in 64 asks for a size where 32-bit index arithmetic on size x size or
+    // size x share runs out (a few streams only: each draw fills 10^5 elements)
+    let mut streams = if thorough { 256 } else { 96 };
+    let case = match case {
+        Case::BoolVec { sparsity, via_instr, .. } if r.chance(1, 64) => {
+            streams = 4;
+            Case::BoolVec { size: *r.pick(&[65_536, 92_700, 131_072]), sparsity, via_instr }
+        }
+        Case::IntVec { min, max, via_instr, .. } if r.chance(1, 64) => {
+            streams = 4;
+            Case::IntVec { size: *r.pick(&[65_536, 100_000]), min, max, via_instr }
+        }
+        c => c,
+    };
     EntropySc {
         seed,
         case,
-        streams: if thorough { 256 } else { 96 },
+        streams,
         p_extreme: if faulted { *r.pick(&[10u32, 100, 400]) } else { 0 },
         p_repeat: if faulted { *r.pick(&[0u32, 50, 200]) } else { 0 },
         only_stream: None,
@@ -174,6 +197,15 @@ fn state_with_bindings(n: usize) -> PushState {
     // bait: names that are on the NAME stack but not bound, floats outside [0,1) on the FLOAT
     // stack, and (every other table size) wide random-number ranges in the configuration: the
     // leaves of generated code come from the bindings and from [0,1), not from any of these
+    // the name the command-line front end always binds is a binding like any other
+    if n % 5 == 0 || n == 1 {
+        st.name_bindings.insert("BIN".to_string(), Item::name("/usr/bin/pushr".to_string()));
+    }
+    if n == 50 {
+        // an empty range of random integers says nothing about where leaves come from
+        st.configuration.max_random_integer = 7;
+        st.configuration.min_random_integer = 7;
+    }
     for stale in ["stale-name", "x", "🦀"] {
         st.name_stack.push(stale.to_string());
     }
